@@ -13,3 +13,7 @@ func TestMain(m *testing.M) { kit.MainWith(m, scratch.Cleanup) }
 func TestDerive(t *testing.T) {
 	gomspec.DeriveCheck(t, "derive/packages", kit.Pick(5, 100))
 }
+
+func TestKnown(t *testing.T) {
+	gomspec.KnownD16Check(t)
+}
